@@ -331,8 +331,8 @@ def main(argv):
         mode, ops = parse_replay(ck.replay)
         jobs = [(mode, ops, "replay")]
     else:
-        nh, nb = (4, 4) if ck.tier == "quick" else (100, 7)
-        jobs = [(("serial", "openmp")[i % 2], ops, "%d-c%d" % (ck.seed, i)) for i, ops in enumerate(CORPUS if ck.tier != "quick" else CORPUS[:3] + CORPUS[4:5])]
+        nh, nb = (3, 4) if ck.tier == "quick" else (100, 7)
+        jobs = [(("serial", "openmp")[i % 2], ops, "%d-c%d" % (ck.seed, i)) for i, ops in enumerate(CORPUS if ck.tier != "quick" else CORPUS[:2] + CORPUS[4:5])]
         jobs += [(ck.rng.choice(["serial", "openmp"]), gen_history(ck.rng, ck.rng.randint(3, nb)), "%d-%d" % (ck.seed, i)) for i in range(nh)]
         jobs += [("serial", ops, "%d-k%d" % (ck.seed, i)) for i, ops in enumerate(KNOWN_REPLAYS)]
     tmo = 300 if ck.tier == "quick" else 600
